@@ -3,8 +3,10 @@ package rules
 import (
 	"fmt"
 	"go/ast"
+	"go/constant"
 	"go/token"
 	"go/types"
+	"golang.org/x/tools/go/cfg"
 	"sort"
 	"strings"
 
@@ -306,34 +308,139 @@ func runR143(c *core.Ctx) {
 	})
 	c.Check(tests > 0 && (reach[0] || reach[1]), rel, "DecodeTunnelledQuery", "the missing-body test can observe a nil body", fd.Pos(), fmt.Sprintf("states reaching the test: unknown=%v nil=%v non-nil=%v", reach[0], reach[1], reach[2]),
 		"req.Body is non-nil on every path reaching the `req.Body == nil` test: a multipart request without a body part is no longer rejected")
-	// switch defaults return errors
-	nSw := 0
+	// unknown content types are rejected: once the media type has been parsed, the function returns success only on
+	// paths that compared it equal to a constant; and after a part's content type has been read, the loop goes on (or is
+	// left) only on paths that compared it equal to a constant.  Stated on the control flow graph, so a switch with an
+	// error default and an if/else chain ending in an error return are the same thing.
+	isCTGet := func(n ast.Node) bool {
+		found := false
+		core.WalkNoFuncLit(n, func(m ast.Node) bool {
+			call, ok := m.(*ast.CallExpr)
+			if !ok || len(call.Args) != 1 {
+				return true
+			}
+			cf := core.Callee(inf, call)
+			if cf == nil || cf.Name() != "Get" || core.RecvNamed(cf) == nil {
+				return true
+			}
+			if rn := core.RecvNamed(cf).Obj(); rn.Name() != "MIMEHeader" && rn.Name() != "Header" {
+				return true
+			}
+			if cv := core.ConstOf(inf, call.Args[0]); cv != nil && cv.Kind() == constant.String && strings.EqualFold(constant.StringVal(cv), "Content-Type") {
+				found = true
+			}
+			return true
+		})
+		return found
+	}
+	isParse := func(n ast.Node) bool {
+		found := false
+		core.WalkNoFuncLit(n, func(m ast.Node) bool {
+			if call, ok := m.(*ast.CallExpr); ok && core.IsFunc(core.Callee(inf, call), "mime", "ParseMediaType") {
+				found = true
+			}
+			return true
+		})
+		return found
+	}
+	var mediaVar types.Object
+	ctVars := map[types.Object]bool{}
+	var partLoop ast.Stmt
 	ast.Inspect(fd.Body, func(n ast.Node) bool {
-		sw, ok := n.(*ast.SwitchStmt)
-		if !ok || sw.Tag == nil {
+		if _, ok := n.(*ast.FuncLit); ok {
+			return false
+		}
+		as, ok := n.(*ast.AssignStmt)
+		if !ok || len(as.Rhs) != 1 {
 			return true
 		}
-		nSw++
-		var def *ast.CaseClause
-		for _, cl := range sw.Body.List {
-			if cc := cl.(*ast.CaseClause); cc.List == nil {
-				def = cc
-			}
+		if isParse(as.Rhs[0]) {
+			mediaVar = core.ObjOf(inf, as.Lhs[0])
 		}
-		okDef := false
-		if def != nil {
-			for _, s := range def.Body {
-				if r, ok := s.(*ast.ReturnStmt); ok && isErrRet(r) {
-					okDef = true
-				}
-			}
+		if isCTGet(as.Rhs[0]) && len(as.Lhs) == 1 {
+			ctVars[core.ObjOf(inf, as.Lhs[0])] = true
 		}
-		c.Check(okDef, rel, "DecodeTunnelledQuery", fmt.Sprintf("unknown %s is rejected by the switch default", core.ExprString(sw.Tag)), sw.Pos(), "",
-			"the switch has no default clause returning an error: an unknown content type is silently accepted")
 		return true
 	})
-	if nSw < 2 {
-		c.Unknown(rel, "DecodeTunnelledQuery", "content-type switches", fd.Pos(), fmt.Sprintf("expected the outer and the part switch, found %d", nSw))
+	ast.Inspect(fd.Body, func(n ast.Node) bool {
+		if _, ok := n.(*ast.FuncLit); ok {
+			return false
+		}
+		switch n.(type) {
+		case *ast.ForStmt, *ast.RangeStmt:
+			if partLoop == nil && isCTGet(n) {
+				partLoop = n.(ast.Stmt)
+			}
+		}
+		return true
+	})
+	if mediaVar == nil || partLoop == nil {
+		c.Unknown(rel, "DecodeTunnelledQuery", "content-type dispatch", fd.Pos(), "the parsed media type or the loop reading the parts' content types was not found")
+	} else {
+		const (
+			sD = 1 << iota // media type parsed
+			sM             // … and compared equal to a constant
+			sI             // a part's content type has been read in this iteration
+			sC             // … and compared equal to a constant
+		)
+		eqConst := func(f core.Fact, isSubject func(ast.Expr) bool) bool {
+			be, ok := core.Unparen(f.Expr).(*ast.BinaryExpr)
+			if !ok || !((be.Op == token.EQL && f.Val) || (be.Op == token.NEQ && !f.Val)) {
+				return false
+			}
+			return (isSubject(be.X) && core.ConstOf(inf, be.Y) != nil) || (isSubject(be.Y) && core.ConstOf(inf, be.X) != nil)
+		}
+		var badOuter, badPart token.Pos
+		core.NewFlow(c.M, inf, fd.Body).Run(&core.Automaton{
+			Block: func(st int, b *cfg.Block) int {
+				if b.Stmt != partLoop {
+					return st
+				}
+				head := b.Kind == cfg.KindRangeLoop || b.Kind == cfg.KindForLoop || b.Kind == cfg.KindForPost
+				if fs, ok := partLoop.(*ast.ForStmt); ok && fs.Cond == nil && fs.Post == nil && b.Kind == cfg.KindForBody {
+					head = true
+				}
+				if head || b.Kind == cfg.KindForDone || b.Kind == cfg.KindRangeDone {
+					if st&sI != 0 && st&sC == 0 && badPart == 0 {
+						badPart = partLoop.Pos()
+					}
+					st &^= sI | sC
+				}
+				return st
+			},
+			Node: func(st int, n ast.Node) int {
+				if isParse(n) {
+					st = (st | sD) &^ sM
+				}
+				if isCTGet(n) {
+					st = (st | sI) &^ sC
+				}
+				if r, ok := n.(*ast.ReturnStmt); ok && !isErrRet(r) {
+					if st&sD != 0 && st&sM == 0 && badOuter == 0 {
+						badOuter = r.Pos()
+					}
+					if st&sI != 0 && st&sC == 0 && badPart == 0 {
+						badPart = r.Pos()
+					}
+				}
+				return st
+			},
+			Edge: func(st int, facts []core.Fact) (int, bool) {
+				for _, f := range facts {
+					if eqConst(f, func(e ast.Expr) bool { return core.ObjOf(inf, e) == mediaVar || isParse(e) }) {
+						st |= sM
+					}
+					if eqConst(f, func(e ast.Expr) bool { return ctVars[core.ObjOf(inf, e)] || isCTGet(e) }) {
+						st |= sC
+					}
+				}
+				return st, true
+			},
+		})
+		c.Check(badOuter == 0, rel, "DecodeTunnelledQuery", "an unknown media type of the tunnelled request is rejected", fd.Pos(), "",
+			fmt.Sprintf("the success return at %s is reached without the media type having compared equal to a known one: an unknown content type is silently accepted", c.M.Fset.Position(badOuter)))
+		c.Check(badPart == 0, rel, "DecodeTunnelledQuery", "an unknown content type of a multipart part is rejected", partLoop.Pos(), "",
+			"the loop over the parts goes on (or ends successfully) without the part's content type having compared equal to a known one: an unknown part is silently accepted")
 	}
 	// NextPart error returned
 	nextErr := false
